@@ -87,6 +87,28 @@ def labelIndex (groups : List (Option String × List DItem)) (l : String) : Opti
   | [] => none
   | (k, _) :: r => if k = some l then some 0 else (labelIndex r l).map (· + 1)
 
+/-- the labels of the program in source order (`compilation.label_order`) -/
+def labelOrder : List Ev → List String
+  | [] => []
+  | .label l :: r => l :: labelOrder r
+  | .data _ :: r => labelOrder r
+
+/-- the first of these labels that has a group of its own; none: one past the last group -/
+def firstKeyed (groups : List (Option String × List DItem)) : List String → Nat
+  | [] => groups.length
+  | k :: r =>
+    match labelIndex groups k with
+    | some i => i
+    | none => firstKeyed groups r
+
+/-- `get_data_label_index` as repaired: the label's own group; if no DATA statement stands between the label and the next
+    label, the group of the first later label that has one; if no DATA follows at all, one past the last group
+    (the next READ is out of data) -/
+def labelTarget (groups : List (Option String × List DItem)) (order : List String) (l : String) : Nat :=
+  match labelIndex groups l with
+  | some i => i
+  | none => firstKeyed groups ((order.dropWhile (· != l)).drop 1)
+
 /-! ### the READ cursor -/
 
 structure Cur where
